@@ -360,6 +360,32 @@ def fam_errbase(tier: str, rng: random.Random) -> Iterator[dict]:
                         yield p
 
 
+def fam_order_seq(tier: str, rng: random.Random) -> Iterator[dict]:
+    """C16: sequences of calls with different arguments on a method with several precondition groups: which
+    conditions are evaluated, in which order, and whose error is raised must not depend on the calls made before."""
+    shapes = [[[1], [2]], [[1], [2], [3]], [[1, 2], [3]], [[1], [2, 3]]]
+    tables = [t for t in itertools.product([True, False], repeat=3) if not all(t)]
+    seqs = list(itertools.product((0, 1, 2), repeat=3))
+    combos = []
+    for shape in shapes:
+        n = _shape_ncons(shape)
+        for kind in ("method", "static"):
+            for isasync in (False, True):
+                for _ in range(6 if tier == "quick" else 40):
+                    combos.append((shape, n, kind, isasync, [rng.choice(tables) for _ in range(n)], rng.choice(seqs)))
+    for shape, n, kind, isasync, truths, seq in combos:
+        p = member_prog(kind, False, shape, 0, 0, [True] * n, [], ["default", "inst", "factory"], False, isasync,
+                        ncalls=3, tag="order-seq")
+        if p is None:
+            continue
+        for c, tr in zip(p["con"], truths):
+            c["truth"] = list(tr)
+        calls = [op for op in p["drv"][0] if op["f"] == len(p["fn"])]
+        for op, a in zip(calls, seq):
+            op["a"] = a
+        yield p
+
+
 def fam_badkw(tier: str, rng: random.Random) -> Iterator[dict]:
     """Calls that pass an unexpected keyword named like a reserved name (result=...) through the callee's **kwargs,
     mixed with ordinary calls of the same callable: rejected with TypeError where the callable has postconditions
